@@ -365,6 +365,116 @@ def _resolve_callable(repo, f: FuncInfo, e, depth=0):
     return out
 
 
+def r1_factories(ctx):
+    """Coordinate spec factories (binary and LLSD): unpacker shape, .data() type flow, components handed over unchanged.
+    Also run by C11 (text -> tuple -> packer) under its own rule id."""
+    repo = ctx.repo
+    pmod = repo.module(PACK)
+    # ---- factory: shape and type flow
+    fac = repo.fn("_make_llsd_tuplecoord_spec", PACK)
+    sib = repo.fn("_make_tuplecoord_spec", PACK)
+    rets = [n for n in walk(fac.node) if isinstance(n, ast.Return)]
+    pair = as_pair(repo, pmod, rets[0].value) if len(rets) == 1 and rets[0].value is not None else None
+    ctx.require(pair is not None, "_make_llsd_tuplecoord_spec no longer returns one (unpacker, packer) pair")
+    up, pk = pair
+    typ_param = fac.node.args.args[0].arg
+    ups = _resolve_callable(repo, fac, up)
+    ok_up = bool(ups)
+    for params, urets, d, bound, _ in ups:
+        free = [p_ for p_ in params if p_ not in bound and p_ not in ("self", "cls")]
+        for r_ in urets:
+            callee = ap(r_.func) if isinstance(r_, ast.Call) else None
+            callee_is_typ = callee == typ_param or (callee in bound and ap(bound[callee]) == typ_param)
+            ok_up = ok_up and len(free) == 1 and bool(urets) and callee_is_typ and len(r_.args) == 1 and \
+                isinstance(r_.args[0], ast.Starred) and ap(r_.args[0].value) == free[0] and not r_.keywords
+        ok_up = ok_up and bool(urets)
+    ctx.ob("C12.R1", "_make_llsd_tuplecoord_spec unpacker is typ(*array)", ok_up, ctx.w(fac, up),
+           "the LLSD array must be splatted into the coordinate class the row names")
+    packers = _resolve_callable(repo, fac, pk)
+    ctx.floor("C12.R1", "packer functions of _make_llsd_tuplecoord_spec", len(packers), 1)
+    # TupleCoord-only attribute names (defined in the TupleCoord hierarchy, not on tuple)
+    tc = repo.cls("TupleCoord", "hippolyzer/lib/base/datatypes.py")
+    tc_attrs: Set[str] = set()
+    for c in [tc] + repo.subclasses(tc, strict=True):
+        tc_attrs |= {k.split(".")[0] for k in c.methods}
+        for st in c.node.body:
+            if isinstance(st, ast.AnnAssign) and isinstance(st.target, ast.Name):
+                tc_attrs.add(st.target.id)
+    tc_attrs -= set(dir(tuple))
+    data_fn = repo.lookup_method(tc, "data")
+    ctx.require(data_fn is not None and ap(data_fn.node.returns) == "tuple",
+                "TupleCoord.data is no longer annotated `-> tuple`: re-read the type-flow premise of C12.R1")
+    for side, f in (("llsd", fac), ("binary", sib)):
+        # closures of the factory plus the same-module functions it hands out (directly or through functools.partial)
+        cands = [(x, x) for x in walk(f.node) if isinstance(x, ast.FunctionDef) and x is not f.node]
+        for n_ in walk(f.node, into_defs=True):
+            if isinstance(n_, ast.Name) and isinstance(n_.ctx, ast.Load):
+                for g_ in repo.funcs.get(n_.id, []):
+                    if g_.module is f.module and g_.cls is None and g_.parent_fn is None and g_ is not f and \
+                            not any(c_[0] is g_.node for c_ in cands):
+                        cands.append((g_.node, n_))
+        labels = {id(d_): d_.name for d_, _ in cands}
+        for n_ in walk(f.node, into_defs=True):
+            if isinstance(n_, ast.Name) and isinstance(n_.ctx, ast.Load):
+                kci = repo.resolve_class(n_.id, f.module)
+                if kci is not None and kci.module is f.module and repo.lookup_method(kci, "__call__") is not None:
+                    for meth in class_methods_reachable(repo, repo.lookup_method(kci, "__call__"), depth=2):
+                        if meth.name != "__init__" and not any(c_[0] is meth.node for c_ in cands):
+                            cands.append((meth.node, n_))
+                            labels[id(meth.node)] = f"{meth.cls.name}.{meth.name}" if meth.cls else meth.name
+        for d, site in cands:
+            cfg = CFG(d)
+            dname = labels.get(id(d), d.name)
+            rebinds = [s for s in stores(d, into_defs=False) if s.kind == "assign" and isinstance(s.target, ast.Name)
+                       and isinstance(s.value, ast.Call) and call_attr(s.value) == "data"
+                       and isinstance(s.value.func, ast.Attribute)]
+            branch = "needed_elems given" if any(
+                isinstance(e, ast.Compare) and ap(e.left) == "needed_elems" and pol is False or
+                isinstance(e, ast.Compare) and ap(e.left) == "needed_elems" and isinstance(e.ops[0], ast.IsNot) and pol
+                for e, pol in facts(site, f.node)) else "all components"
+            bad = []
+            for s in rebinds:
+                nm = s.target.id
+                after = cfg.reachable(cfg.nodes_for(s.node))
+                for n in walk(d):
+                    if isinstance(n, ast.Attribute) and isinstance(n.value, ast.Name) and n.value.id == nm and \
+                            n.attr in tc_attrs and not any(x is n for x in ast.walk(s.value)):
+                        stn = enclosing_stmt(n)
+                        if any(cn in after for cn in cfg.stmt_nodes_containing(n)) or stn is None:
+                            bad.append(n)
+            key = f"{f.qual}.{dname}[{branch}]: names rebound to .data() are used as tuples"
+            ctx.ob("C12.R1", key, not bad, ctx.w(f, d),
+                   "" if not bad else f"`{norm(bad[0])}` after `{norm(rebinds[0].node)}`: TupleCoord.data() returns a tuple, "
+                   f"which has no attribute {bad[0].attr!r} (AttributeError for every value of this type)")
+            # the packer yields the elements themselves
+            prets = [n for n in walk(d) if isinstance(n, ast.Return) and n.value is not None]
+            ctx.ob("C12.R1", f"{f.qual}.{dname}[{branch}]: packer returns on every path", bool(prets), ctx.w(f, d))
+            if prets:
+                # the unpacker is a plain typ(*array) (checked above), so the packer must hand the components over
+                # unchanged: no arithmetic on elements of the value
+                dparams = {a.arg for a in d.args.args}
+                if any(call_attr(r_.value) in dparams for r_ in prets if isinstance(r_.value, ast.Call)):
+                    continue          # an unpacker-shaped helper (typ(*x)), not a packer
+                elems = _derived_names(d, dparams)
+                names = dparams | set(elems)
+                arith = []
+                for n_ in walk(d, into_defs=True):
+                    if isinstance(n_, ast.UnaryOp) and isinstance(n_.op, (ast.USub, ast.Invert)) and isinstance(n_.operand, ast.Name) \
+                            and n_.operand.id in _comp_vars(d, names) | names:
+                        arith.append(n_)
+                    elif isinstance(n_, ast.BinOp) and not isinstance(n_.op, (ast.BitAnd, ast.BitOr)) and any(
+                            isinstance(o, ast.Name) and o.id in _comp_vars(d, names) for o in (n_.left, n_.right)):
+                        from ..core import ancestors as _anc
+                        # a scalar summary of the components (sum of squares, a maximum ...) is not a component
+                        if not any(isinstance(a_, ast.Call) and (ap(a_.func) or "").split(".")[-1] in
+                                   ("sum", "min", "max", "any", "all", "len", "fsum", "hypot", "isclose") for a_ in _anc(n_)):
+                            arith.append(n_)
+                ctx.ob("C12.R1", f"{f.qual}.{dname}[{branch}]: packer hands the components over unchanged", not arith, ctx.w(f, d),
+                       "" if not arith else f"`{norm(arith[0])}` alters component values, but the unpacker rebuilds the coordinate "
+                       f"from the array as it is: some value does not come back equal")
+
+
+
 def r1(ctx):
     repo = ctx.repo
     ctx.rule("C12.R1", "LLSD packer table agrees with MsgType / the binary sibling table; tuple-coordinate factory type "
@@ -443,104 +553,7 @@ def r1(ctx):
         else:
             raise AnalysisError(f"LLSD SPECS[{m}] has unsupported shape {norm(v)}: read it and extend C12.R1")
 
-    # ---- factory: shape and type flow
-    fac = repo.fn("_make_llsd_tuplecoord_spec", PACK)
-    sib = repo.fn("_make_tuplecoord_spec", PACK)
-    rets = [n for n in walk(fac.node) if isinstance(n, ast.Return)]
-    pair = as_pair(repo, pmod, rets[0].value) if len(rets) == 1 and rets[0].value is not None else None
-    ctx.require(pair is not None, "_make_llsd_tuplecoord_spec no longer returns one (unpacker, packer) pair")
-    up, pk = pair
-    typ_param = fac.node.args.args[0].arg
-    ups = _resolve_callable(repo, fac, up)
-    ok_up = bool(ups)
-    for params, urets, d, bound, _ in ups:
-        free = [p_ for p_ in params if p_ not in bound and p_ not in ("self", "cls")]
-        for r_ in urets:
-            callee = ap(r_.func) if isinstance(r_, ast.Call) else None
-            callee_is_typ = callee == typ_param or (callee in bound and ap(bound[callee]) == typ_param)
-            ok_up = ok_up and len(free) == 1 and bool(urets) and callee_is_typ and len(r_.args) == 1 and \
-                isinstance(r_.args[0], ast.Starred) and ap(r_.args[0].value) == free[0] and not r_.keywords
-        ok_up = ok_up and bool(urets)
-    ctx.ob("C12.R1", "_make_llsd_tuplecoord_spec unpacker is typ(*array)", ok_up, ctx.w(fac, up),
-           "the LLSD array must be splatted into the coordinate class the row names")
-    packers = _resolve_callable(repo, fac, pk)
-    ctx.floor("C12.R1", "packer functions of _make_llsd_tuplecoord_spec", len(packers), 1)
-    # TupleCoord-only attribute names (defined in the TupleCoord hierarchy, not on tuple)
-    tc = repo.cls("TupleCoord", "hippolyzer/lib/base/datatypes.py")
-    tc_attrs: Set[str] = set()
-    for c in [tc] + repo.subclasses(tc, strict=True):
-        tc_attrs |= {k.split(".")[0] for k in c.methods}
-        for st in c.node.body:
-            if isinstance(st, ast.AnnAssign) and isinstance(st.target, ast.Name):
-                tc_attrs.add(st.target.id)
-    tc_attrs -= set(dir(tuple))
-    data_fn = repo.lookup_method(tc, "data")
-    ctx.require(data_fn is not None and ap(data_fn.node.returns) == "tuple",
-                "TupleCoord.data is no longer annotated `-> tuple`: re-read the type-flow premise of C12.R1")
-    for side, f in (("llsd", fac), ("binary", sib)):
-        # closures of the factory plus the same-module functions it hands out (directly or through functools.partial)
-        cands = [(x, x) for x in walk(f.node) if isinstance(x, ast.FunctionDef) and x is not f.node]
-        for n_ in walk(f.node):
-            if isinstance(n_, ast.Name) and isinstance(n_.ctx, ast.Load):
-                for g_ in repo.funcs.get(n_.id, []):
-                    if g_.module is f.module and g_.cls is None and g_.parent_fn is None and g_ is not f and \
-                            not any(c_[0] is g_.node for c_ in cands):
-                        cands.append((g_.node, n_))
-        labels = {id(d_): d_.name for d_, _ in cands}
-        for n_ in walk(f.node):
-            if isinstance(n_, ast.Name) and isinstance(n_.ctx, ast.Load):
-                kci = repo.resolve_class(n_.id, f.module)
-                if kci is not None and kci.module is f.module and repo.lookup_method(kci, "__call__") is not None:
-                    for meth in class_methods_reachable(repo, repo.lookup_method(kci, "__call__"), depth=2):
-                        if meth.name != "__init__" and not any(c_[0] is meth.node for c_ in cands):
-                            cands.append((meth.node, n_))
-                            labels[id(meth.node)] = f"{meth.cls.name}.{meth.name}" if meth.cls else meth.name
-        for d, site in cands:
-            cfg = CFG(d)
-            dname = labels.get(id(d), d.name)
-            rebinds = [s for s in stores(d, into_defs=False) if s.kind == "assign" and isinstance(s.target, ast.Name)
-                       and isinstance(s.value, ast.Call) and call_attr(s.value) == "data"
-                       and isinstance(s.value.func, ast.Attribute)]
-            branch = "needed_elems given" if any(
-                isinstance(e, ast.Compare) and ap(e.left) == "needed_elems" and pol is False or
-                isinstance(e, ast.Compare) and ap(e.left) == "needed_elems" and isinstance(e.ops[0], ast.IsNot) and pol
-                for e, pol in facts(site, f.node)) else "all components"
-            bad = []
-            for s in rebinds:
-                nm = s.target.id
-                after = cfg.reachable(cfg.nodes_for(s.node))
-                for n in walk(d):
-                    if isinstance(n, ast.Attribute) and isinstance(n.value, ast.Name) and n.value.id == nm and \
-                            n.attr in tc_attrs and not any(x is n for x in ast.walk(s.value)):
-                        stn = enclosing_stmt(n)
-                        if any(cn in after for cn in cfg.stmt_nodes_containing(n)) or stn is None:
-                            bad.append(n)
-            key = f"{f.qual}.{dname}[{branch}]: names rebound to .data() are used as tuples"
-            ctx.ob("C12.R1", key, not bad, ctx.w(f, d),
-                   "" if not bad else f"`{norm(bad[0])}` after `{norm(rebinds[0].node)}`: TupleCoord.data() returns a tuple, "
-                   f"which has no attribute {bad[0].attr!r} (AttributeError for every value of this type)")
-            # the packer yields the elements themselves
-            prets = [n for n in walk(d) if isinstance(n, ast.Return) and n.value is not None]
-            ctx.ob("C12.R1", f"{f.qual}.{dname}[{branch}]: packer returns on every path", bool(prets), ctx.w(f, d))
-            if side == "llsd" and prets:
-                # the unpacker is a plain typ(*array) (checked above), so the packer must hand the components over
-                # unchanged: no arithmetic on elements of the value
-                dparams = {a.arg for a in d.args.args}
-                if any(call_attr(r_.value) in dparams for r_ in prets if isinstance(r_.value, ast.Call)):
-                    continue          # an unpacker-shaped helper (typ(*x)), not a packer
-                elems = _derived_names(d, dparams)
-                names = dparams | set(elems)
-                arith = []
-                for n_ in walk(d, into_defs=True):
-                    if isinstance(n_, ast.UnaryOp) and isinstance(n_.op, (ast.USub, ast.Invert)) and isinstance(n_.operand, ast.Name) \
-                            and n_.operand.id in _comp_vars(d, names) | names:
-                        arith.append(n_)
-                    elif isinstance(n_, ast.BinOp) and not isinstance(n_.op, (ast.BitAnd, ast.BitOr)) and any(
-                            isinstance(o, ast.Name) and o.id in _comp_vars(d, names) for o in (n_.left, n_.right)):
-                        arith.append(n_)
-                ctx.ob("C12.R1", f"{f.qual}.{dname}[{branch}]: packer hands the components over unchanged", not arith, ctx.w(f, d),
-                       "" if not arith else f"`{norm(arith[0])}` alters component values, but the unpacker rebuilds the coordinate "
-                       f"from the array as it is: some value does not come back equal")
+    r1_factories(ctx)
 
     # ---- serializer walk
     ser = repo.fn("LLSDMessageSerializer.serialize")
@@ -681,7 +694,7 @@ def r1(ctx):
 
     for side, f, meth in (("serialize", ser, "pack"), ("deserialize", des, "unpack")):
         # the walk may sit in f itself or in a same-class helper f hands the dict (and the converter) to
-        walks = [(f, n, {}) for n in walk(f.node) if isinstance(n, ast.For) and isinstance(n.iter, ast.Call)
+        walks = [(f, n, {}, None) for n in walk(f.node) if isinstance(n, ast.For) and isinstance(n.iter, ast.Call)
                  and ap(n.iter.func) == "self._yield_vars"]
         if not walks and f.cls is not None:
             for c in calls(f.node):
@@ -690,11 +703,23 @@ def r1(ctx):
                     if h is not None and h is not f:
                         for n in walk(h.node):
                             if isinstance(n, ast.For) and isinstance(n.iter, ast.Call) and ap(n.iter.func) == "self._yield_vars":
-                                walks.append((h, n, _param_env(h, c)))
+                                walks.append((h, n, _param_env(h, c), c))
         ctx.ob("C12.R1", f"{side} iterates self._yield_vars(...)", len(walks) == 1, f.where, f"found {len(walks)} loops")
-        for host, lp, env in walks:
+        for host, lp, env, hcall in walks:
             def _res(e):
                 return ap(env[e.id]) if isinstance(e, ast.Name) and e.id in env else ap(e)
+
+            def _loc(e, host=host, lp=lp):
+                """access path of e with single-assignment locals of the loop body expanded"""
+                for _ in range(3):
+                    if isinstance(e, ast.Name):
+                        vs = [s_.value for s_ in stores(lp, into_defs=False) if s_.path == e.id and s_.kind == "assign"
+                              and s_.value is not None]
+                        if len(vs) == 1:
+                            e = vs[0]
+                            continue
+                    break
+                return ap(e)
             ok_t = isinstance(lp.target, ast.Tuple) and len(lp.target.elts) == 2
             blk, tv = (ap(lp.target.elts[0]), ap(lp.target.elts[1])) if ok_t else (None, None)
             cs = [c for c in calls(lp) if _res(c.func) == f"LLSDDataPacker.{meth}"]
@@ -704,22 +729,35 @@ def r1(ctx):
                 continue
             # value read from and written back to block[tmpl_var.name]
             st = [s for s in stores(lp, into_defs=False) if s.kind == "setitem" and s.path == blk
-                  and ap(s.target.slice) == f"{tv}.name"]
+                  and _loc(s.target.slice) == f"{tv}.name"]
             val = cs[0].args[0]
             if isinstance(val, ast.Name):
                 vs = [s.value for s in stores(lp, into_defs=False) if s.path == val.id and s.kind == "assign" and s.value is not None]
                 val = vs[-1] if vs else val
             ok_rw = len(st) == 1 and any(x is cs[0] for x in ast.walk(st[0].value)) and isinstance(val, ast.Subscript) \
-                and ap(val.value) == blk and ap(val.slice) == f"{tv}.name"
+                and ap(val.value) == blk and _loc(val.slice) == f"{tv}.name"
             ctx.ob("C12.R1", f"{side} replaces block[tmpl_var.name] by its converted value", ok_rw, ctx.w(host, lp))
             # the walked dict is the one handed on
             arg = _res(lp.iter.args[0]) if lp.iter.args else None
+            # what carries the converted dict in f: the walked object itself, and - when the helper returns the very
+            # parameter it walked - the helper call and the names bound to it
+            carriers = {arg}
+            call_carries = False
+            if hcall is not None and lp.iter.args and isinstance(lp.iter.args[0], ast.Name):
+                hp = lp.iter.args[0].id
+                hrets = [n.value for n in walk(host.node) if isinstance(n, ast.Return) and n.value is not None]
+                if hrets and all(ap(r_) == hp for r_ in hrets) and not any(s_.path == hp for s_ in stores(host.node)):
+                    call_carries = True
+                    carriers |= {s_.path for s_ in stores(f.node, into_defs=False) if s_.kind == "assign" and s_.value is hcall}
+
+            def _carried(e):
+                return any(ap(x) in carriers for x in ast.walk(e)) or (call_carries and any(x is hcall for x in ast.walk(e)))
             if side == "serialize":
                 outs = [n.value for n in walk(f.node) if isinstance(n, ast.Return) and n.value is not None]
-                ok_o = bool(outs) and all(arg in {ap(x) for x in ast.walk(o)} for o in outs)
+                ok_o = bool(outs) and all(_carried(o) for o in outs)
             else:
                 fd = find_calls(f.node, "from_dict")
-                ok_o = len(fd) == 1 and fd[0].args and arg in {ap(x) for x in ast.walk(fd[0].args[0])}
+                ok_o = len(fd) == 1 and fd[0].args and _carried(fd[0].args[0])
             ctx.ob("C12.R1", f"{side} hands on the dict it converted", bool(ok_o), ctx.w(f, lp))
 
     r1_alias(ctx, des)
@@ -918,7 +956,16 @@ def _norm_fmt(f: str) -> str:
     return ("!" + f[1:]) if f[:1] == ">" else f
 
 
-def _emissions(stmts) -> Tuple[Set[bytes], Set[str], List[Tuple[ast.AST, ast.AST, ast.AST]]]:
+def _pack_fmt(n: ast.Call, consts: Optional[Dict[str, str]]) -> Optional[str]:
+    """struct format of `struct.pack(<fmt>, ...)` or `<precompiled Struct constant>.pack(...)`"""
+    if ap(n.func) == "struct.pack" and n.args and isinstance(n.args[0], ast.Constant) and isinstance(n.args[0].value, str):
+        return n.args[0].value
+    if isinstance(n.func, ast.Attribute) and n.func.attr == "pack" and consts and ap(n.func.value) in consts:
+        return consts[ap(n.func.value)]
+    return None
+
+
+def _emissions(stmts, consts: Optional[Dict[str, str]] = None) -> Tuple[Set[bytes], Set[str], List[Tuple[ast.AST, ast.AST, ast.AST]]]:
     """(1-byte tags emitted, struct formats packed, length-prefix triples (pack call, len arg, payload expr))."""
     tags: Set[bytes] = set()
     fmts: Set[str] = set()
@@ -928,13 +975,14 @@ def _emissions(stmts) -> Tuple[Set[bytes], Set[str], List[Tuple[ast.AST, ast.AST
         if isinstance(n, ast.Constant) and isinstance(n.value, bytes) and len(n.value) == 1:
             p = parent(n)
             leftmost = isinstance(p, ast.BinOp) and isinstance(p.op, ast.Add) and p.left is n
-            whole = isinstance(p, (ast.Return, ast.List)) or (isinstance(p, ast.Call) and call_attr(p) in ("append", "write")
+            whole = isinstance(p, (ast.Return, ast.List, ast.Tuple)) or (isinstance(p, ast.Call) and call_attr(p) in ("append", "write")
                                                               and any(a is n for a in p.args))
             if leftmost or whole:
                 tags.add(n.value)
-        if isinstance(n, ast.Call) and ap(n.func) == "struct.pack" and n.args and isinstance(n.args[0], ast.Constant):
-            fmts.add(_norm_fmt(n.args[0].value))
-            if len(n.args) == 2 and isinstance(n.args[1], ast.Call) and ap(n.args[1].func) == "len" and n.args[1].args:
+        if isinstance(n, ast.Call) and _pack_fmt(n, consts) is not None:
+            fmts.add(_norm_fmt(_pack_fmt(n, consts)))
+            vargs = n.args[1:] if ap(n.func) == "struct.pack" else n.args
+            if len(vargs) == 1 and isinstance(vargs[0], ast.Call) and ap(vargs[0].func) == "len" and vargs[0].args:
                 # header = the `+` chain that ends with this pack call; payload = what is added to the header,
                 # in the same expression or after the header was bound to a local name
                 top = n
@@ -951,7 +999,7 @@ def _emissions(stmts) -> Tuple[Set[bytes], Set[str], List[Tuple[ast.AST, ast.AST
                                 and u.left.id == hname:
                             payload = u.right
                 if payload is not None:
-                    prefixes.append((n, n.args[1].args[0], payload))
+                    prefixes.append((n, vargs[0].args[0], payload))
     return tags, fmts, prefixes
 
 
@@ -1158,12 +1206,54 @@ def r2(ctx):
         if g.module is mod and g.cls is None and g.parent_fn is None and g is not wf and g.name not in helper_defs:
             helper_defs[g.name] = g.node
     _em_cache: Dict[str, tuple] = {}
+    # precompiled struct.Struct constants of the module
+    sconsts: Dict[str, str] = {}
+    for st_ in mod.tree.body:
+        if isinstance(st_, ast.Assign) and isinstance(st_.value, ast.Call) and ap(st_.value.func) == "struct.Struct" \
+                and st_.value.args and isinstance(st_.value.args[0], ast.Constant):
+            for t_ in st_.targets:
+                if isinstance(t_, ast.Name):
+                    sconsts[t_.id] = st_.value.args[0].value
+
+    def tag_params(name) -> List[int]:
+        """positions of helper parameters that are written as the leading tag byte"""
+        d = helper_defs[name]
+        ps = [a.arg for a in d.args.args]
+        out = []
+        for n_ in walk(d, into_defs=False):
+            if isinstance(n_, ast.Name) and n_.id in ps and isinstance(n_.ctx, ast.Load):
+                p_ = parent(n_)
+                if (isinstance(p_, ast.BinOp) and isinstance(p_.op, ast.Add) and p_.left is n_
+                        and not isinstance(parent(p_), ast.BinOp)) or \
+                        (isinstance(p_, ast.BinOp) and isinstance(p_.op, ast.Add) and p_.left is n_ and
+                         isinstance(parent(p_), ast.BinOp) and parent(p_).left is p_):
+                    # leftmost operand of the chain
+                    top = p_
+                    while isinstance(parent(top), ast.BinOp) and parent(top).left is top:
+                        top = parent(top)
+                    leftmost = top
+                    while isinstance(leftmost, ast.BinOp):
+                        leftmost = leftmost.left
+                    if leftmost is n_ and ps.index(n_.id) not in out:
+                        out.append(ps.index(n_.id))
+        return out
+
+    def call_tags(c: ast.Call) -> Set[bytes]:
+        out: Set[bytes] = set()
+        if isinstance(c.func, ast.Name) and c.func.id in helper_defs:
+            for i in tag_params(c.func.id):
+                if i < len(c.args) and isinstance(c.args[i], ast.Constant) and isinstance(c.args[i].value, bytes) \
+                        and len(c.args[i].value) == 1:
+                    out.add(c.args[i].value)
+        return out
 
     def helper_emissions(name, seen=()):
         if name in _em_cache:
             return _em_cache[name]
         d = helper_defs[name]
-        t, f, pfx = _emissions(d.body)
+        t, f, pfx = _emissions(d.body, sconsts)
+        for c in calls(d):
+            t = t | call_tags(c)
         for c in calls(d):
             if isinstance(c.func, ast.Name) and c.func.id in helper_defs and c.func.id not in seen and c.func.id != name:
                 t2, f2, p2 = helper_emissions(c.func.id, seen + (name,))
@@ -1228,8 +1318,9 @@ def r2(ctx):
     # ---- tags, formats, length prefixes
     n_tags = 0
     for label, types, test, body in branches:
-        tags, fmts, prefixes = _emissions(body)
+        tags, fmts, prefixes = _emissions(body, sconsts)
         for c in calls(ast.Module(body=list(body), type_ignores=[])):
+            tags = tags | call_tags(c)
             if isinstance(c.func, ast.Name) and c.func.id in helper_defs:
                 t2, f2, p2 = helper_emissions(c.func.id)
                 tags, fmts, prefixes = tags | t2, fmts | f2, prefixes + p2
@@ -1282,6 +1373,33 @@ def r2(ctx):
                 ctx.note(f"C12.R2: {inst}: does NOT hold, but the branch is dead code today (shadowed); it becomes a "
                          f"live defect for non-ASCII values as soon as the branch order is fixed")
     ctx.floor("C12.R2", "tags emitted by the binary formatter", n_tags, 14)
+    # memo tables of the formatter module: a cached wire form that depends on the *type* of the key (isinstance test of a
+    # str / int subclass) cannot be keyed by the value alone - dict lookup conflates `uri('x')` with `'x'`, True with 1
+    CONFLATING = {"builtins.str", "builtins.int", "builtins.float", "builtins.bytes", "builtins.tuple", "builtins.frozenset"}
+    for g in repo.all_funcs:
+        if g.module is not mod or g.cls is not None or g.parent_fn is not None:
+            continue
+        gps = [a.arg for a in g.node.args.args]
+        reads = [c for c in calls(g.node) if isinstance(c.func, ast.Attribute) and c.func.attr == "get" and c.args
+                 and isinstance(c.args[0], ast.Name) and c.args[0].id in gps and isinstance(c.func.value, ast.Name)
+                 and isinstance(repo.module_assign(mod, c.func.value.id), (ast.Dict, ast.Call))]
+        reads += [n_ for n_ in walk(g.node) if isinstance(n_, ast.Subscript) and isinstance(n_.ctx, ast.Load)
+                  and isinstance(n_.value, ast.Name) and isinstance(n_.slice, ast.Name) and n_.slice.id in gps
+                  and isinstance(repo.module_assign(mod, n_.value.id), (ast.Dict,))]
+        for rd in reads:
+            keyp = rd.args[0].id if isinstance(rd, ast.Call) else rd.slice.id
+            tests = [c for c in calls(g.node) if ap(c.func) == "isinstance" and len(c.args) == 2 and ap(c.args[0]) == keyp]
+            culprit = None
+            for t in tests:
+                for ty in tw.repo_types(mod, t.args[1]):
+                    sup = tw.supers(ty) - {ty}
+                    if sup & CONFLATING or ty in ("builtins.bool",):
+                        culprit = (t, ty)
+            cache = rd.func.value.id if isinstance(rd, ast.Call) else rd.value.id
+            ctx.ob("C12.R2", f"{g.qual}: memo {cache} keyed by `{keyp}` does not depend on the key's subclass", culprit is None,
+                   ctx.w(g, rd), "" if culprit is None else
+                   f"the cached bytes depend on `{norm(culprit[0])}` but `{culprit[1]}` instances hash and compare equal to plain "
+                   f"values of their base type: whichever is formatted first decides the tag for both")
     # stream-backed subclasses (own _getc): the base _parse_array steps over the closing token with index arithmetic that
     # means nothing on a stream, so the subclass must read that one byte itself on every normal path
     base_arr = pm._tp_method("_parse_array")
@@ -1651,11 +1769,60 @@ def r7(ctx):
     ctx.floor("C12.R7", "binary parser construction sites", n, 2)
 
 
+def r8(ctx):
+    """Hippo overrides of the third-party formatter's type handlers must print the value in full: a precision-limited
+    number format (`%.15g`, `{v:.6f}`, round()) cannot give every double back."""
+    import re as _re
+    repo = ctx.repo
+    ctx.rule("C12.R8", "formatter handler overrides print numbers at full precision (no %.Ng with N < 17, no fixed-point "
+                       "format, no round()) so every real survives the XML / notation form")
+    lmod_rels = {LLSD, repo.cls("HippoLLSDBaseFormatter", LLSD).module.rel}
+    n = 0
+
+    def lossy_spec(text: str, is_format_spec: bool) -> Optional[str]:
+        pats = [_re.compile(r"\.(\d+)([gGeEfF])")] if is_format_spec else [_re.compile(r"%[-+ #0]*\d*\.(\d+)([gGeEfF])")]
+        for pat in pats:
+            for m_ in pat.finditer(text):
+                prec, kind = int(m_.group(1)), m_.group(2).lower()
+                if kind == "f" or (kind == "g" and prec < 17) or (kind == "e" and prec < 16):
+                    return m_.group(0)
+        return None
+    for lst in repo.classes.values():
+        for ci in lst:
+            if ci.module.rel not in lmod_rels:
+                continue
+            for name, m in ci.methods.items():
+                if not (name.isupper() and len(m.node.args.args) >= 2):
+                    continue
+                n += 1
+                vparam = m.node.args.args[1].arg
+                bad = None
+                for x in walk(m.node, into_defs=True):
+                    if isinstance(x, ast.BinOp) and isinstance(x.op, ast.Mod) and isinstance(x.left, ast.Constant) and \
+                            isinstance(x.left.value, (str, bytes)) and any(isinstance(y, ast.Name) and y.id == vparam for y in ast.walk(x.right)):
+                        t = x.left.value if isinstance(x.left.value, str) else x.left.value.decode("latin-1")
+                        bad = bad or lossy_spec(t, False)
+                    elif isinstance(x, ast.FormattedValue) and x.format_spec is not None and \
+                            any(isinstance(y, ast.Name) and y.id == vparam for y in ast.walk(x.value)):
+                        t = "".join(str(v.value) for v in x.format_spec.values if isinstance(v, ast.Constant))
+                        bad = bad or lossy_spec(t, True)
+                    elif isinstance(x, ast.Call) and ap(x.func) in ("format", "round") and x.args and \
+                            any(isinstance(y, ast.Name) and y.id == vparam for y in ast.walk(x.args[0])):
+                        if ap(x.func) == "round":
+                            bad = bad or "round()"
+                        elif len(x.args) > 1 and isinstance(x.args[1], ast.Constant) and isinstance(x.args[1].value, str):
+                            bad = bad or lossy_spec(x.args[1].value, True)
+                ctx.ob("C12.R8", f"{ci.name}.{name}: the value is printed at full precision", bad is None, m.where,
+                       "" if bad is None else f"`{bad}` drops digits: doubles that differ beyond that precision print alike and do "
+                       f"not come back (17 significant digits are needed)")
+    ctx.floor("C12.R8", "formatter handler overrides", n, 2)
+
+
 def run(ctx):
     # when re-run as a dependency clause of another property only the requested rules are evaluated (an analysis
     # error of a rule the dependent property does not need must not become its analysis error)
     wanted = getattr(ctx, "_rules", None) if getattr(ctx, "_dep", None) == "C12" else None
-    for name, fn in (("R1", r1), ("R2", r2), ("R3", r3), ("R4", r4), ("R5", r5), ("R6", r6), ("R7", r7)):
+    for name, fn in (("R1", r1), ("R2", r2), ("R3", r3), ("R4", r4), ("R5", r5), ("R6", r6), ("R7", r7), ("R8", r8)):
         if wanted is None or name in wanted:
             fn(ctx)
     ctx.assume("third-party llsd package sources under /venv/lib/python3.12/site-packages/llsd are parsed, never imported; "
